@@ -276,6 +276,8 @@ def run(repo, rep):
 
     rep.run_borrowed(_c08o, {"C08-f": "C10-o", "C08-i": "C10-o"}, repo, only_sites=("create_dma_op", "propose_weight_buffering"))
     rep.run_borrowed(_c02m, {"C02-v": "C10-o"}, repo, only_sites=("get_augmented_coord",))
+    rep.clause("C10-q", "the upscaling factor of a transpose convolution / nearest-neighbour resize relates the OFM rows to the rows the operator reads: the read window of a fused slice if there is one, not the whole tensor")
+    rule_upscaling_extent(repo, rep)
     rep.clause("C10-p", "the un-cascaded MAX schedule is returned early only when nothing can be evicted from fast storage afterwards: the early exit of optimize_schedule is guarded by `not is_spilling_enabled()` as well as by the SRAM limit (otherwise a tried MIN schedule leaves rolling-buffer shapes on tensors that are then used as whole feature maps)")
     rule_early_exit_guard(repo, rep)
     rule_rolling_buffer_addressing(repo, rep)
@@ -724,3 +726,42 @@ def rule_early_exit_guard(repo, rep):
     rep.check(has_limit and has_spill, "C10-p", site, f"early return under `{norm(exits[0].test)}`",
               f"guard `{norm(exits[0].test)}`: conjuncts {cj}; without `not self.arch.is_spilling_enabled()` an Ethos-U65 compilation goes on to try the cascaded MIN schedule, restores the MAX schedule "
               "and writes whole feature maps through 2-10 row rolling buffers")
+
+
+def rule_upscaling_extent(repo, rep):
+    """(q) generate_high_level_commands_for_sched_op derives `upscaling` as OFM height / IFM height. An operator that reads through a fused
+    slice (parent_op.read_shapes[0]) sees the window, not the tensor: SLICE(3 of 8 rows) -> TRANSPOSE_CONV stride 2 gives 6 // 8 = 0 and a
+    division by zero in Box.transform_with_strides_and_skirt (a RuntimeWarning on numpy scalars; the IFM box collapses, IFM_WIDTH0_M1 =
+    0xFFFF). Every division that defines `upscaling` has a divisor that (through local names) depends on the read shape."""
+    hl = repo.mod("high_level_command_stream_generator")
+    f = hl.func("generate_high_level_commands_for_sched_op")
+    site = "ethosu/vela/high_level_command_stream_generator.py:generate_high_level_commands_for_sched_op"
+    if f is None:
+        raise AnalysisError("generate_high_level_commands_for_sched_op not found")
+    loc = {}
+    for a in ast.walk(f):
+        if isinstance(a, ast.Assign) and len(a.targets) == 1 and isinstance(a.targets[0], ast.Name):
+            loc.setdefault(a.targets[0].id, []).append(a.value)
+
+    def depends_on_read(e, depth=0):
+        if "read_shape" in str(norm(e)):
+            return True
+        if depth > 3:
+            return False
+        return any(isinstance(n_, ast.Name) and n_.id in loc and n_.id != "upscaling" and any(depends_on_read(v, depth + 1) for v in loc[n_.id]) for n_ in ast.walk(e))
+
+    n = 0
+    for v in loc.get("upscaling", []):
+        div = None
+        if isinstance(v, ast.BinOp) and isinstance(v.op, (ast.FloorDiv, ast.Div)):
+            div = v.right
+        elif isinstance(v, ast.Call) and (call_name(v) or "").split(".")[-1] in ("round_up_divide", "round_up_divide_int") and len(v.args) == 2:
+            div = v.args[1]
+        if div is None:
+            continue
+        n += 1
+        rep.check(depends_on_read(div), "C10-q", site, f"`upscaling = {norm(v)}`: the divisor is the height of what the operator reads",
+                  f"`upscaling = {norm(v)}` divides by the whole tensor's height: an operator that reads a 3-row window of an 8-row tensor gets factor 6 // 8 = 0 (division by zero in "
+                  "transform_with_strides_and_skirt, IFM box of one column, IFM_BASE1 = 0)")
+    if n < 2:
+        raise AnalysisError(f"generate_high_level_commands_for_sched_op: {n} divisions defining `upscaling`")
